@@ -85,8 +85,8 @@ theorem colFold_size (n : Nat) (dt : DT) (nc : Int) (gget : Int → List Rows) (
       rw [ih st1 h, colStep_size n dt nc gget st st1 c hs]
 
 theorem collapseCore_size (numrows numcols : Nat) (dt : DT) (nc : Int) (gathered : List (Int × List Rows))
-    (prec : List Int) (default : Int) (out : Array Int)
-    (h : collapseCore numrows numcols dt nc gathered prec default = .ok out) : out.size = numrows := by
+    (prec head : List Int) (default : Int) (out : Array Int)
+    (h : collapseCore numrows numcols dt nc gathered prec head default = .ok out) : out.size = numrows := by
   unfold collapseCore at h
   simp only [bind, Except.bind] at h
   split at h
@@ -124,7 +124,7 @@ theorem collapsed_wf (i : IIndex) (prec : List Int) (mapping : Option (List (Int
             · rename_i r hr
               simp only [pure, Except.pure, Except.ok.injEq] at h
               subst h
-              have hsz := collapseCore_size _ _ _ _ _ _ _ _ hout
+              have hsz := collapseCore_size _ _ _ _ _ _ _ _ _ hout
               have harr : ArrOK { shape := [i.shape.getD 0 0], data := out.toList } :=
                 ⟨Or.inl rfl, by simp [prod, hsz]⟩
               exact fromArray_wf { shape := [i.shape.getD 0 0], data := out.toList } {} r.1 r.2 harr
